@@ -12,6 +12,9 @@ DEVONLY_PREFIXES = (
 )
 
 
+CRATE_FN = re.compile(r"(^|<|\s)(analyze|words|stats|config|util|write|controller|init|input_scanner|mem_pos_tracker|rdh|cdp_wrapper|stdin_reader|bufreader_wrapper|scan_cdp)::")
+
+
 class Check:
     __slots__ = ("num", "name", "status", "desc", "loc", "func")
 
@@ -128,8 +131,8 @@ def _parse_body(r, body):
                     cur.func = mm.group(1).strip()
                 cur = None
     for c in r.checks:
-        if c.func and not re.match(r"(std|core|alloc|kani|__rust|<std|<core|<alloc)", c.func):
-            r.functions.add(re.sub(r"::<.*$", "", c.func))
+        if c.func and CRATE_FN.search(c.func) and "verif_" not in c.func and "vsup" not in c.func:
+            r.functions.add(re.sub(r"::<[^>]*>$", "", c.func))
         if ".cover." in c.name:
             r.covers_total += 1
             if c.status == "SATISFIED":
@@ -201,6 +204,8 @@ def kani_cmd(h_list, target_dir, cls, extra=None):
         cmd += FUNC_FLAGS
     to = max(h.timeout for h in h_list)
     cmd += ["--harness-timeout", "%ds" % to]
+    for a in (h_list[0].kani_args or []):
+        cmd.append(a)
     if extra:
         cmd += extra
     return cmd
@@ -253,13 +258,13 @@ def run_all(scratch, harnesses, seed=0, max_parallel=None, mem_budget_gb=48, log
     # partitions by (crate, class)
     parts = {}
     for h in hs:
-        parts.setdefault((h.crate, h.cls), []).append(h)
+        parts.setdefault((h.crate, h.cls, tuple(h.kani_args or [])), []).append(h)
     ncpu = os.cpu_count() or 8
     if max_parallel is None:
         max_parallel = max(1, min(8, ncpu // 2))
     total_est = sum(h.est for h in hs) or 1
     jobs = []
-    for (crate, cls), lst in parts.items():
+    for (crate, cls, _ka), lst in parts.items():
         share = max(1, round(max_parallel * sum(h.est for h in lst) / total_est))
         # harnesses that need a lot of memory run in their own group
         big = [h for h in lst if h.mem > 16]
